@@ -3,6 +3,7 @@ package main
 import (
 	"encoding/json"
 	"fmt"
+	hraft "github.com/hashicorp/raft"
 	"sort"
 	"strings"
 
@@ -264,6 +265,18 @@ func runC22Seq(c *vlib.Ctx, cmds []Cmd, s int) {
 		return
 	}
 	snaps = append(snaps, sb)
+	// "late" snapshots: Snapshot() is taken at the prefix (as raft does on the apply
+	// goroutine) but persisted only after all later commands were applied (as raft's
+	// snapshot goroutine may): the persisted bytes must still describe the prefix
+	var late []hraft.FSMSnapshot
+	takeLate := func() {
+		ls, err := A.Snapshot()
+		if err != nil {
+			ls = nil
+		}
+		late = append(late, ls)
+	}
+	takeLate()
 	changes := 0
 	report := func(sig string, step int, extra map[string]any) {
 		d := map[string]any{"step": step, "commands": descs(cmds[:min(step+1, len(cmds))])}
@@ -318,8 +331,31 @@ func runC22Seq(c *vlib.Ctx, cmds []Cmd, s int) {
 			return
 		}
 		snaps = append(snaps, sb)
+		takeLate()
 	}
 	final := res.dumps[len(res.dumps)-1]
+	for k, ls := range late {
+		if ls == nil || k >= len(res.dumps) {
+			continue
+		}
+		var sink memSink
+		if err := ls.Persist(&sink); err != nil {
+			report("snapshot error (persisted late)", k-1, map[string]any{"err": err.Error()})
+			continue
+		}
+		ls.Release()
+		R, err := restoreFrom(sink.Bytes())
+		if err != nil {
+			report("restore error (snapshot persisted late)", k-1, map[string]any{"err": err.Error()})
+			continue
+		}
+		c.Count("late_persisted_snapshots_restored", 1)
+		if _, dR := dump(R); dR != res.dumps[k] {
+			report("snapshot persisted after later commands were applied differs from the state it was taken from: "+diffKeys(dR, res.dumps[k]), k-1,
+				map[string]any{"snapshot_prefix": k, "commands_applied_before_persist": len(cmds), "restored": dR, "source": res.dumps[k]})
+			break
+		}
+	}
 	// snapshot at every prefix: fidelity + replay of the suffix
 	for k := 0; k <= len(cmds); k++ {
 		R, err := restoreFrom(snaps[k])
@@ -504,7 +540,9 @@ func checkC23(c *vlib.Ctx) {
 		return araft.NodeInfo{ID: id, Name: id, Role: "writer", ClusterName: "c", Address: id + ":1", APIAddress: id + ":2", State: "healthy", Version: "v", WriterState: ws, CoreCount: 2}
 	}
 	alphabet := []mkf{
-		func(id string) Cmd { return mk(araft.CommandAddNode, "add "+id, araft.AddNodePayload{Node: writer(id, "")}) },
+		func(id string) Cmd {
+			return mk(araft.CommandAddNode, "add "+id, araft.AddNodePayload{Node: writer(id, "")})
+		},
 		func(id string) Cmd {
 			return mk(araft.CommandAddNode, "add(primary-claim) "+id, araft.AddNodePayload{Node: writer(id, "primary")})
 		},
@@ -516,11 +554,15 @@ func checkC23(c *vlib.Ctx) {
 		func(id string) Cmd {
 			return mk(araft.CommandUpdateNode, "update "+id, araft.UpdateNodePayload{Node: writer(id, "")})
 		},
-		func(id string) Cmd { return mk(araft.CommandRemoveNode, "remove "+id, araft.RemoveNodePayload{NodeID: id}) },
+		func(id string) Cmd {
+			return mk(araft.CommandRemoveNode, "remove "+id, araft.RemoveNodePayload{NodeID: id})
+		},
 		func(id string) Cmd {
 			return mk(araft.CommandPromoteWriter, "promote "+id, araft.PromoteWriterPayload{NodeID: id})
 		},
-		func(id string) Cmd { return mk(araft.CommandDemoteWriter, "demote "+id, araft.DemoteWriterPayload{NodeID: id}) },
+		func(id string) Cmd {
+			return mk(araft.CommandDemoteWriter, "demote "+id, araft.DemoteWriterPayload{NodeID: id})
+		},
 		func(id string) Cmd {
 			return mk(araft.CommandUpdateNodeState, "state "+id, araft.UpdateNodeStatePayload{NodeID: id, NewState: "unhealthy"})
 		},
